@@ -56,7 +56,7 @@ const (
 	minLine = 150
 )
 
-func genBlock(t *rapid.T, large bool) Block {
+func genBlock(t *rapid.T, large bool, left *int) Block {
 	b := Block{Stride: rapid.SampledFrom([]int{1, 7, 13, 101, 997, 4093}).Draw(t, "stride")}
 	switch rapid.IntRange(0, 6).Draw(t, "len_kind") {
 	case 0: // tiny
@@ -87,10 +87,14 @@ func genBlock(t *rapid.T, large bool) Block {
 	if large {
 		avg := (b.Lo + b.Hi) / 2
 		want := rapid.SampledFrom([]int{2_000_000, 3_500_000, 1_000_000, 300_000, 5_200_000}).Draw(t, "block_bytes")
+		if want > *left {
+			want = *left
+		}
 		b.N = want/avg + 1
 		if b.N > 4000 {
 			b.N = 4000
 		}
+		*left -= b.N * avg
 	} else {
 		b.N = rapid.IntRange(1, 12).Draw(t, "n")
 	}
@@ -111,8 +115,12 @@ func Gen(t *rapid.T, tier string) any {
 		sc.MemSize = rapid.SampledFrom([]int{1, 2, 3, 5, 50}).Draw(t, "mem_size")
 	}
 	n := rapid.IntRange(1, 5).Draw(t, "n_blocks")
+	left := 9_000_000 // bytes per case
+	if tier == "thorough" {
+		left = 16_000_000
+	}
 	for i := 0; i < n; i++ {
-		sc.Blocks = append(sc.Blocks, genBlock(t, large))
+		sc.Blocks = append(sc.Blocks, genBlock(t, large, &left))
 	}
 	return sc
 }
@@ -205,6 +213,18 @@ func (r *run) produce(sc *Scenario) error {
 	}
 	kernel.Wait()
 	return nil
+}
+
+// clean makes an error of the reader printable: no per-case path, bounded.
+func (r *run) clean(err error) string {
+	if err == nil {
+		return "<nil>"
+	}
+	s := kernel.CleanPath(r.n.Dir, err.Error())
+	if len(s) > 300 {
+		s = s[:300] + "..."
+	}
+	return s
 }
 
 // file is the independent view of one log file.
@@ -329,7 +349,7 @@ func (r *run) checkFile(f *file, step int) error {
 		}
 		_, depth, serr := q.SeekTS(ctx, r.log, f.ts[i])
 		if serr != nil {
-			return kernel.Violationf("seek-present-not-found", "%s (%d lines): seeking the timestamp of line %d (%d bytes) reports %q: %v", f.name, n, i, len(f.lines[i]), querylog.VerifSeekErrClass(serr), serr)
+			return kernel.Violationf("seek-present-not-found", "%s (%d lines): seeking the timestamp of line %d (%d bytes) reports %q: %s", f.name, n, i, len(f.lines[i]), querylog.VerifSeekErrClass(serr), r.clean(serr))
 		}
 		if depth >= 100 {
 			return kernel.Violationf("seek-too-many-probes", "%s: seek to line %d took %d probes", f.name, i, depth)
@@ -367,7 +387,7 @@ func (r *run) checkFile(f *file, step int) error {
 		case "not-found", "too-early", "too-late":
 			r.c.Probe("seek_absent_" + cls)
 		default:
-			return kernel.Violationf("seek-absent-"+cls, "%s (%d lines): seeking a timestamp %s, which no line has, reports %q (%v) instead of not-found / too-early / too-late", f.name, n, a.what, cls, serr)
+			return kernel.Violationf("seek-absent-"+cls, "%s (%d lines): seeking a timestamp %s, which no line has, reports %q (%s) instead of not-found / too-early / too-late", f.name, n, a.what, cls, r.clean(serr))
 		}
 		if depth >= 100 {
 			return kernel.Violationf("seek-too-many-probes", "%s: seek to an absent timestamp %s took %d probes", f.name, a.what, depth)
@@ -434,7 +454,7 @@ func (r *run) checkReader(files []*file, step int) error {
 			continue
 		}
 		if serr := rd.SeekTS(ctx, ts[i]); serr != nil {
-			return kernel.Violationf("seek-present-not-found", "%s: seeking the timestamp of the %d-th newest of %d lines reports %q: %v", what, i, n, querylog.VerifSeekErrClass(serr), serr)
+			return kernel.Violationf("seek-present-not-found", "%s: seeking the timestamp of the %d-th newest of %d lines reports %q: %s", what, i, n, querylog.VerifSeekErrClass(serr), r.clean(serr))
 		}
 		k := min(3, n-i)
 		if boundary || i%(97*step) == 0 {
@@ -475,7 +495,7 @@ func (r *run) checkReader(files []*file, step int) error {
 				return v
 			}
 		default:
-			return kernel.Violationf("seek-absent-"+cls, "%s: seeking a timestamp %s reports %v", what, a.what, serr)
+			return kernel.Violationf("seek-absent-"+cls, "%s: seeking a timestamp %s reports %s", what, a.what, r.clean(serr))
 		}
 		if err = rd.SeekStart(); err != nil {
 			return kernel.Violationf("seek-start-error", "%s: SeekStart: %v", what, err)
